@@ -99,6 +99,41 @@ def check_model(case):
                 ntk.append(('m', G.to_dict(spec) and sorted(G.to_dict(spec).items(), key=str).__repr__(), repr(ins), repr(outs), repr(args)))
             labels += O.ov_labels(spec, ovs)
         labels += ['outs:mixed' if len(dep) < len(out_keys) else 'outs:all-downstream']
+        # ---- compile again with the SAME lists after the model was edited: nothing of the first compilation may survive
+        ed = case.get('edit')
+        consts = [c for c in spec['cells'] if 'f' not in c and not isinstance(c['v'], list) and tuple(c['at']) not in in_cells]
+        if ed and consts and argsets:
+            import copy as _copy
+            spec2 = _copy.deepcopy(spec)
+            cell = [c for c in spec2['cells'] if 'f' not in c and not isinstance(c['v'], list) and tuple(c['at']) not in in_cells][ed[0] % len(consts)]
+            cell['v'] = ed[1]
+            b_, s_, r_, c_ = cell['at']
+            m.from_dict({G.qual_full(spec2, b_, s_) + G.a1(r_, c_): G.const_out(ed[1])})
+            try:
+                func2 = m.compile(in_ids, out_ids)
+            except sut.Watchdog:
+                raise
+            except Exception as ex:
+                func2 = None
+                labels.append('recompile-refused:%s' % type(ex).__name__)
+            if func2 is not None:
+                args = argsets[0]
+                ovs = []
+                for ov, a in zip(in_ovs, args):
+                    o2 = list(ov)
+                    o2[2] = a if ov[0] == 'cell' else _shape_like(spec2, ov, a)
+                    ovs.append(o2)
+                expected = W.evaluate(spec2, O.to_cells(spec2, ovs))
+                res = func2(*[O.repo_value(spec2, o) for o in ovs])
+                if len(out_ids) == 1:
+                    res = [res]
+                for k, rv in zip(out_keys, res):
+                    got, exp = sut.one(rv), expected.get(k)
+                    if not isinstance(exp, W.Unsure) and not X.same(got, 0.0 if isinstance(exp, sut.Blank) else exp, 1e-9):
+                        fails.append(('recompiled|%s|%s' % ('+'.join(O.ov_labels(spec2, ovs)), 'downstream' if k in down else 'independent'),
+                                      '%s: after editing %s to %r and compiling the same lists again: %r, reference %r (args %r)' % (
+                                          G.node_id(spec2, k), G.node_id(spec2, tuple(cell['at'])), ed[1], got, exp, args)))
+                labels.append('recompiled-after-edit')
     seen, out = set(), []
     for s_, d_ in fails:
         if s_ not in seen:
@@ -226,7 +261,10 @@ def _model_cases(draw, tier):
         outs += draw(st.lists(st.sampled_from(indep), min_size=1, max_size=2, unique=True))
     nsets = draw(st.integers(1, 3))
     args = [[draw(O.VALS if ov[0] == 'cell' else O.VALS_NOBLANK) for ov in ins] for _ in range(nsets)]
-    return {'k': 'model', 'spec': spec, 'ins': ins, 'outs': [list(k) for k in outs], 'args': args, 'path': path}
+    edit = None
+    if draw(st.booleans()):
+        edit = [draw(st.integers(0, 30)), draw(st.sampled_from([11.0, -7.0, 2.5, 'edited', True, 0.0]))]
+    return {'k': 'model', 'spec': spec, 'ins': ins, 'outs': [list(k) for k in outs], 'args': args, 'path': path, 'edit': edit}
 
 
 def _models(tier):
